@@ -26,6 +26,12 @@ pub fn parse_raw3<'a>(
             n * 4
         );
 
+        // width and height come from the header: make sure the mipmap really holds
+        // that many BGRA pixels before reserving memory for them
+        if u64::from(n) * 4 > image_bytes.len() as u64 {
+            return Err(Error::UnexpectedEof);
+        }
+
         let mut reader = Cursor::new(image_bytes);
         let pixels = read_u32_array(&mut reader, n as usize)?;
 
